@@ -23,6 +23,11 @@ func init() {
 		Run: c13Idle, MaxOps: 6 << 20, Horizon: 14 * time.Hour,
 		Doc: "fault-free link with round-trip latency below the pong timeout, idle for up to 12 virtual hours (occasional traffic): keepalive must never close it",
 	})
+	simrt.Register(&simrt.Scenario{
+		Prop: "C13", Name: "idle-resonant", Count: tiered(1000, 480000),
+		Run: func(rc *simrt.RunCtx) { c13IdleX(rc, true) }, MaxOps: 6 << 20, Horizon: 14 * time.Hour,
+		Doc: "as idle-healthy, with windows of 1-3 packets (the pings themselves fill the window), equal ping intervals on both sides, one-way latency a multiple of ping/8 and a pong timeout between the round trip and ping + round trip: ping ticks, pong expiries and packet arrivals fall on the same virtual instants, the tape orders them",
+	})
 }
 
 func c13Knobs(rc *simrt.RunCtx) (tkC, tkS tknobs) {
@@ -208,19 +213,30 @@ func c13Dead(rc *simrt.RunCtx) {
 	}
 }
 
-func c13Idle(rc *simrt.RunCtx) {
+func c13Idle(rc *simrt.RunCtx) { c13IdleX(rc, false) }
+
+func c13IdleX(rc *simrt.RunCtx, resonant bool) {
 	ns := []uint8{1, 2, DefaultN, 254}
+	if resonant {
+		ns = []uint8{1, 2, 3}
+	}
 	n := ns[rc.Pick(len(ns), "knob.n")]
 	tkC, tkS := c13Knobs(rc)
-	rc.Knob("N", n)
-	rc.Knob("client", tkC)
-	rc.Knob("server", tkS)
 	// one-way latency such that a ping's ACK is back within the pong timeout
 	maxOneWay := tkC.pong/2 - 50*time.Millisecond
 	lat := time.Millisecond + time.Duration(rc.Pick(int(maxOneWay/time.Millisecond), "net.lat"))*time.Millisecond
 	if rc.Pick(2, "net.fast") == 0 {
 		lat = time.Duration(1+rc.Pick(20, "net.latfast")) * time.Millisecond
 	}
+	if resonant {
+		ping := time.Duration(1+rc.Pick(3, "knob.rping")) * time.Second
+		lat = ping * time.Duration(1+rc.Pick(12, "knob.rlat")) / 8
+		pong := 2*lat + ping*time.Duration([]int{1, 2, 3, 5}[rc.Pick(4, "knob.rpong")])/4
+		tkC.ping, tkS.ping, tkC.pong, tkS.pong = ping, ping, pong, pong
+	}
+	rc.Knob("N", n)
+	rc.Knob("client", tkC)
+	rc.Knob("server", tkS)
 	// the handshake runs over a fast link; the property is about an
 	// established connection
 	c2s := &netCfg{latMin: time.Millisecond, latMax: time.Millisecond}
@@ -281,9 +297,14 @@ func c13Idle(rc *simrt.RunCtx) {
 	if lim := 2500 * minPing; lim < total {
 		total = lim
 	}
+	if resonant {
+		total = 1200 * minPing
+	}
 	rc.Sample("N=%d client[%v] server[%v] one-way latency %v write-call lag %v idle for %v", n, tkC, tkS, lat, lag, total)
 	start := rc.Now()
 	msgs := 0
+	var sendMu sync.Mutex
+	sending := false
 	for rc.Now()-start < total {
 		gap := time.Duration(1+rc.Pick(1800, "wl.gap")) * time.Second
 		time.Sleep(gap)
@@ -307,13 +328,26 @@ func c13Idle(rc *simrt.RunCtx) {
 				who, rc.Now()-start, lat, tkC.ping, tkS.ping, tkC.pong, tkC.resend, tkS.resend, n, msgs)
 			break
 		}
-		if rc.Pick(4, "wl.traffic") == 0 {
-			if cli.Send(mkMsg('A', msgs, 30)) == nil {
-				msgs++
-			}
-			if srv.Send(mkMsg('B', msgs, 30)) == nil {
-				msgs++
-			}
+		sendMu.Lock()
+		busy := sending
+		sendMu.Unlock()
+		if rc.Pick(4, "wl.traffic") == 0 && !busy {
+			// (in a task of its own: with a window full of pings and an
+			// unfair select order a Send can wait for a long time)
+			sendMu.Lock()
+			sending = true
+			sendMu.Unlock()
+			k := msgs
+			msgs += 2
+			wg.Add(1)
+			go func() {
+				defer wg.Done()
+				cli.Send(mkMsg('A', k, 30))
+				srv.Send(mkMsg('B', k+1, 30))
+				sendMu.Lock()
+				sending = false
+				sendMu.Unlock()
+			}()
 		}
 	}
 	if !rc.Failed() {
